@@ -1,6 +1,7 @@
 #![allow(dead_code)]
 
 pub use self::archive::RrdpArchive;
+#[cfg(routinator_verif)] pub use self::archive::RepositoryState;
 pub use self::base::{Collector, LoadResult, ReadRepository, Run};
 pub use self::http::HttpStatus;
 pub use self::update::SnapshotReason;
